@@ -22,6 +22,7 @@ class DSpec:
     optional_covers: list = field(default_factory=list)
     cbmc_args: list = field(default_factory=list)
     unwindset: list = field(default_factory=list)
+    stretch_entries: list = field(default_factory=list)   # entry suffixes that run in the thorough tier only, undecided allowed
 
 
 def build(spec: DSpec):
@@ -55,16 +56,19 @@ def build(spec: DSpec):
     return d, entries, info
 
 
-def jobs_for(spec: DSpec, timeout=900, mem_gb=14, weight=1, required=True):
+def jobs_for(spec: DSpec, timeout=900, mem_gb=14, weight=1, required=True, with_stretch=False):
     d, entries, info = build(spec)
     jobs = []
     if d is None:
         return jobs, info
     gtxt = " || ".join(f"[{m}] " + t.replace("\n", " ") for m, t in info["grammars"].items())
     for (h, u, call) in entries:
+        is_stretch = any(h.endswith("_" + suf) for suf in spec.stretch_entries)
+        if is_stretch and not with_stretch:
+            continue
         jobs.append(kani.Job(jid=h, crate=d, harness=h, desc=(spec.note + " | " if spec.note else "") + gtxt,
                              bound={"input_bytes": f"<={spec.n}", "alphabet": "all UTF-8", "unwind": u, "grammars": info["grammars"]},
-                             timeout=timeout, mem_gb=mem_gb, weight=weight, required=required, cbmc_args=list(spec.cbmc_args),
+                             timeout=timeout, mem_gb=mem_gb, weight=weight, required=(required and not is_stretch), cbmc_args=list(spec.cbmc_args),
                              expect=("known" if h.endswith("_known") else "pass"),
                              meta={"role": spec.name, "nbytes": spec.n, "spec": spec.name, "unwindset": list(spec.unwindset),
                                    "optional_covers": ["parse succeeds", "parse fails"] + list(spec.optional_covers)}))
